@@ -1,4 +1,20 @@
-from vrun import H
+import os, sys
+from vrun import H, VERIF
+sys.path.insert(0, os.path.join(VERIF, "engines", "kani", "core"))
+import gen_c03  # noqa: E402
+
+OPS = "K<i>=clone handle i, D<i>=drop handle i, E<i>=handle i .entered() (owned guard), X<g>=guard g .exit() (handle back), Y<g>=drop guard g, R<i>=record via handle i, S<i>=in_scope via handle i"
+
+
+def _skeletons():
+    hs = []
+    for n, tier in ((1, "quick"), (2, "quick"), (3, "quick"), (4, "thorough")):
+        for seq in gen_c03.skeletons(n, n):
+            hs.append(H("gen_c03::c03_sk_" + gen_c03.name(seq), tier=tier,
+                        desc="handle/guard program %s (%s) on one span under a foreign default: call ledger after every step and at quiescence" % (" ".join(seq), OPS),
+                        sym="simulated thread of every entered() (exit must happen on it)"))
+    return hs
+
 
 SYM = "which handle / drop order / simulated thread / poll counts (see harness)"
 SPEC = {
@@ -16,18 +32,18 @@ SPEC = {
         H("c03::c03_instrumented", desc="Instrumented<Leaf>: ready after n<=2 polls, polled k<=n+1 times then dropped: one enter/exit per poll, body dropped inside the span, one close", sym="n, k"),
         H("c03::c03_instrumented_into_inner", desc="Instrumented::into_inner after k<=2 polls, on a solver-chosen thread: the wrapper's span handle is released (one close), no extra enter/exit", sym="k, thread"),
         H("c03::c03_reach", kind="reach", desc="vacuity twin"),
-    ],
+    ] + _skeletons(),
     "functions": ["tracing::Span::{new_with, new_root_with, child_of_with, new_disabled, none, current, or_current, clone, enter, entered, in_scope, record, follows_from, id, drop}",
                   "EnteredSpan::{exit, drop}, Entered::drop, Inner::{clone, follows_from, record}", "tracing::instrument::{Instrumented::poll, PinnedDrop for Instrumented}",
                   "tracing_core::dispatch::{get_default, Dispatch::{clone_span, try_close, enter, exit, current_span}}"],
     "sym": SYM,
-    "bounds": "programs of <= 8 operations over <= 3 handles and <= 2 guards of one span (plus parent/child/root trio), 3 simulated threads, futures ready after <= 2 polls",
+    "bounds": "all handle/guard programs of <= 3 (quick) / <= 4 (thorough) operations over <= 3 live handles+guards of one span (exhaustive for the length), plus 10 hand-written shapes (drop orders, cross-thread, disabled spans, parent/child/root, current capture, instrumented futures ready after <= 2 polls)",
     "outside": "handles used concurrently from real threads; tracing-futures combinators; programs longer than the harnessed shapes; span!-macro construction (C01/C10)",
     "stubs": ["std::rt::thread_cleanup -> no-op", "core::fmt::write -> Ok(())", "H1 simulated threads", "unregistered Dispatch constructor"],
     "assumptions": ["the recording collector never closes a span (try_close returns false); ledger counts calls"],
     "manifest": {
         "text": "Bounded model checking of span-handle programs against a call ledger: each harness is a program shape (clone/drop orders, borrowed and owned guards out of order, cross-thread moves, disabled spans, parent/child, current-span capture, instrumented futures with symbolic poll counts) executed on the real Span/Instrumented code under a foreign default collector; the solver picks orders, handles, threads and counts. The ledger oracle is the property statement itself.",
-        "note": "Program shapes are enumerated by hand (not all programs); relative to the sequential thread model of H1.",
+        "note": "Programs are enumerated exhaustively up to 4 operations plus hand-written shapes (not all programs); relative to the sequential thread model of H1.",
         "technique": "bounded model checking of the real span.rs / instrument.rs (Kani/CBMC) with symbolic orders and counts, ledger oracle",
     },
     "explanation": "",
